@@ -319,7 +319,11 @@ def main(argv=None):
         else:
             violations.append(f)
     disagreements = res.get("disagreements", [])
+    printed = set()
     for f, desc in known_hits:
+        if f.get("key") in printed:
+            continue
+        printed.add(f.get("key"))
         print(f"KNOWN-FINDING: property={prop_id} key={f.get('key')} {desc or f.get('desc', '')}")
     seen = set()
     rc = 0
